@@ -442,7 +442,7 @@ def gen_cases(tier, rng):
         for seq in itertools.product(A, repeat=2):
             cases.append(dict(kind="exh-pre", n=2, ops=PRE + [list(o) for o in seq]))
         triples = list(itertools.product(A, repeat=3))
-        for seq in rng.sample(triples, 24000):      # round 5: 30000 -> 24000 to make room for the h3 / h4 kinds
+        for seq in rng.sample(triples, 16000):      # round 5: 30000 -> 16000 to make room for exh-reduced (6 561) and the h3 / h4 kinds
             cases.append(dict(kind="sample-empty3", n=2, ops=[list(o) for o in seq]))
         nrand, maxlen = 3500, 60      # 6000 histories of <= 60 ops held ~3.5 GB of observables in the main process
     # the property's own quantifier: ALL sequences up to depth 3 (quick) / 4 (thorough) over the reduced alphabet (a sequence of
